@@ -112,7 +112,7 @@ type Peer struct {
 	mu        sync.Mutex
 	cond      *sync.Cond
 	cands     []Candidate // who may be writing to us
-	PairedKey uint64 // TxKey of the peer whose stream we are receiving (0: not yet known)
+	PairedKey uint64      // TxKey of the peer whose stream we are receiving (0: not yet known)
 	Rcvd      int64
 	RxEOF     bool
 	RxErr     error
